@@ -328,13 +328,15 @@ def cases(tier):
             kq = K('qr_q_%s' % mi.tag, [Par('o', mq, False), Par('m', mi)], '{ %s r; qr_decompose(*m, *o, r); }' % mr.cpp, CFG)
             kr = K('qr_r_%s' % mi.tag, [Par('o', mr, False), Par('m', mi)], '{ %s q; qr_decompose(*m, q, *o); }' % mq.cpp, CFG)
 
-            def gram(mi=mi, C=C, Rr=Rr, mn=mn, w=w):
+            def gram(mi=mi, C=C, Rr=Rr, mn=mn, w=w, classical=False):
                 cols = [[S.lane('m', mi, (c, r)) for r in range(Rr)] for c in range(C)]
                 q = []
                 for i in range(mn):
                     v = list(cols[i])
                     for j in range(i):
-                        d = S.dot(v, q[j])
+                        # modified Gram-Schmidt projects the running vector; the classical variant projects the input column (equal in exact arithmetic, but its
+                        # loss of orthogonality grows with the square of the condition number)
+                        d = S.dot(cols[i] if classical else v, q[j])
                         v = [a - b * d for a, b in zip(v, q[j])]
                     q.append(S.normalize(v))
                 rr = {}
@@ -349,12 +351,18 @@ def cases(tier):
 
             def spec_r(gram=gram):
                 return gram()[1]
-            cs.append(spec_case('qr_decompose(mat%dx%d<%s>).Q' % (C, Rr, tg), kq, mq, spec_q))
-            cs.append(spec_case('qr_decompose(mat%dx%d<%s>).R' % (C, Rr, tg), kr, mr, spec_r))
+            def alt_q(gram=gram, mn=mn, Rr=Rr):
+                q, _ = gram(classical=True)
+                return {(c, r): q[c][r] for c in range(mn) for r in range(Rr)}
+
+            def alt_r(gram=gram):
+                return gram(classical=True)[1]
+            cs.append(spec_case('qr_decompose(mat%dx%d<%s>).Q' % (C, Rr, tg), kq, mq, spec_q, alt_q))
+            cs.append(spec_case('qr_decompose(mat%dx%d<%s>).R' % (C, Rr, tg), kr, mr, spec_r, alt_r))
     return cs
 
 
-def spec_case(name, k, outty, specfn):
+def spec_case(name, k, outty, specfn, altfn=None):
     def judge(ctx):
         err = ctx.compile_error(k)
         if err:
@@ -369,6 +377,11 @@ def spec_case(name, k, outty, specfn):
                 res.append(R.ob('%s[%s]' % (name, lane), 'qr', R.REFUTED, 'the entry is never written (previous content of the result object)', kernel=k.source()))
                 continue
             st, detail = S.compare(t, sp[lane].t, pc=pc, nan=False)
+            if st == R.UNDECIDED and altfn is not None:
+                alt = altfn()
+                if S.compare(t, alt[lane].t, pc=pc, nan=False)[0] == R.PROVED:
+                    st, detail = R.REFUTED, ('the entry is the classical Gram-Schmidt formula (projection coefficients taken from the input column instead of the running, partially '
+                                             'orthogonalised vector): equal in exact arithmetic, but the loss of orthogonality of q grows with the square of the condition number, not with the condition number as for the documented modified method')
             res.append(R.ob('%s[%s]' % (name, lane), 'qr', st, 'modified Gram-Schmidt entry' if st == R.PROVED else detail, where=R.where_of(ctx.fn(k), t) if st != R.PROVED else None, kernel=k.source()))
         return res
     return R.Case(name, [k], judge)
